@@ -304,12 +304,12 @@ def explore_all(run, pid, tier, years=(2021, 2022, 2023), depth_quick=1, depth_t
         for base in bases_for(year):
             if bases is not None and base.name not in bases:
                 continue
-            if tier == 'quick' and bases is None and base.name not in QUICK_BASES:
-                continue
             if tier == 'thorough':
                 depth = depth_thorough
             else:
                 depth = depth_quick
+                if bases is None and base.name not in QUICK_BASES:
+                    depth = 0      # the other bases contribute their base return only in the quick tier
             st = explore(year, base, depth, pid)
             run.states += st['nodes']
             run.transitions += st['transitions']
